@@ -15,6 +15,9 @@ TRUSTED = [
     'Generated/Timezones.v (gettext._timezones in dict order) and Generated/DatesUcd.v (str.isspace and regex \\s code points of the '
     'running interpreter), regenerated on every run',
     'extraction (ExtrOcamlBasic only) + ocaml/driver.ml',
+    'source translator tools/gen/gen_dates_src.py (python ast -> Gallina, fail-closed subset, rules in its docstring) and its target vocabulary '
+    'coq/Lib/PyDates.v: Generated/DatesSrc.v is trusted to mean what gettext.parse_date / fix_date_format / Checker.check_dates say '
+    '(C18_source_tie_*); str.strip, the two regexes, strptime, _timezones, utc_now and datetime comparison stay oracles there',
     'the `re` engine and datetime.strptime are modelled (backtracking scanner; calendar conditions), not verified; tied by the '
     'regex-level and strptime-level correspondences below',
     'correspondence: fix_date_format / _parse_date / _search_for_date_boilerplate / parse_date called directly; Checker.check_dates '
